@@ -10,6 +10,24 @@ import (
 	"github.com/grafana/cog/internal/tools"
 )
 
+// formatEnumMemberName turns the name of an enum member into a valid java
+// identifier.
+func formatEnumMemberName(name string) string {
+	formatted := strings.Map(func(r rune) rune {
+		if r == '_' || (r >= '0' && r <= '9') || (r >= 'A' && r <= 'Z') || (r >= 'a' && r <= 'z') {
+			return r
+		}
+
+		return '_'
+	}, tools.UpperSnakeCase(name))
+
+	if formatted != "" && formatted[0] >= '0' && formatted[0] <= '9' {
+		formatted = "_" + formatted
+	}
+
+	return formatted
+}
+
 func formatObjectName(name string) string {
 	return tools.UpperCamelCase(name)
 }
